@@ -156,7 +156,9 @@ def cases(tier, seed):
                'subcases': [case_of('k2', cb2, bits)],
                'decoy': ({'actor': None, 'pre': bits % 4 == 1, 'status': None, 'phases': list(PHASES), 'fail': None}
                          if bits % 2 else None),
-               'rel': bits % 3 != 0, 'shuffle': None}
+               'rel': bits % 3 != 0, 'shuffle': None,
+               # every fifth tree: the listed case files are symbolic links to files kept in another directory
+               'linked': bits % 5 == 2}
     # (4) shared suite contents: every single instruction kind in two listing orders; combinations
     for j, nm in enumerate(sorted(_SHARED)):
         yield {'kind': 'shared', 'names': [nm], 'order': [0, 1, 2]}
@@ -227,7 +229,8 @@ def _random_contents(rng):
             'direct': [_random_case_spec(rng, 'k%d' % i) for i in range(rng.choice([1, 1, 2]))],
             'subcases': [_random_case_spec(rng, 'k2')] if has_sub else [],
             'decoy': _random_suite_spec(rng, allow_fail=False) if rng.random() < 0.5 else None,
-            'rel': rng.random() < 0.6, 'shuffle': rng.randrange(1 << 30) if rng.random() < 0.6 else None}
+            'rel': rng.random() < 0.6, 'shuffle': rng.randrange(1 << 30) if rng.random() < 0.6 else None,
+            'linked': rng.random() < 0.2}
 
 
 # ---------------------------------------------------------------------------------------------------------------
@@ -761,22 +764,40 @@ def _run_contents(case, ctx):
         files['sub/sub.suite'] = _suite_text(sub, 'U', ['cs%d/%s.case' % (k, c['name'])
                                                         for k, c in enumerate(case['subcases'])], [],
                                              os.path.join(d, 'pp_U.sh'), None if shuffle is None else shuffle + 1)
+    linked = bool(case.get('linked'))
+    links = {}
     for prefix, sspec, sfile, c, cdir in entries:
-        files['%s/%s.case' % (cdir, c['name'])] = _case_text(c)
+        if linked:
+            # the case as named (listed in the suite / given on the command line) is a symbolic link; the file it
+            # points to lies in a directory of its own, without any suite file
+            store = 'store/' + cdir.replace('/', '_')
+            files['%s/%s.case' % (store, c['name'])] = _case_text(c)
+            links['%s/%s.case' % (cdir, c['name'])] = os.path.join(d, store, c['name'] + '.case')
+        else:
+            files['%s/%s.case' % (cdir, c['name'])] = _case_text(c)
         if decoy is not None:
             files[cdir + '/exactly.suite'] = _suite_text(decoy, 'D', [c['name'] + '.case'], [],
                                                          os.path.join(d, 'pp_D.sh'), shuffle)
     driver.write_files(d, files)
+    for lp, target in links.items():
+        os.makedirs(os.path.dirname(os.path.join(d, lp)), exist_ok=True)
+        os.symlink(target, os.path.join(d, lp))
+        files[lp + ' (symbolic link)'] = '-> ' + target
+        ctx.count('c17.linked_case_files')
     rel = case.get('rel', True)
     evaluations = 0
     classes = []
     sample = None
 
     def take(cdir):
-        p = os.path.join(d, cdir, 'rec.jsonl')
-        raw = probe.read_records(p)
-        if os.path.exists(p):
-            os.remove(p)
+        # the probes record beside the case (EXACTLY_HOME); for a linked case the manual leaves open whether that is the
+        # directory of the link or of its target: both places are read (what is demanded is that the three ways agree)
+        raw = []
+        for dd in [cdir] + (['store/' + cdir.replace('/', '_')] if linked else []):
+            p = os.path.join(d, dd, 'rec.jsonl')
+            raw += probe.read_records(p)
+            if os.path.exists(p):
+                os.remove(p)
         return raw
 
     def take_pp():
@@ -892,7 +913,7 @@ def _run_contents(case, ctx):
             classes.append(['contents', 'suite ' + _letters(sspec), 'case ' + _letters(c, False),
                             'direct' if prefix == 'R' else 'sub(parent %s)' % _letters(root), ident])
             if sample is None and len(got_seq) >= 6 and prefix == 'R':
-                sample = {'kind': 'contents', 'suite_file': files['root.suite'], 'case_file': files[cfile],
+                sample = {'kind': 'contents', 'suite_file': files['root.suite'], 'case_file': _case_text(c),
                           'expected': {'ident': exp['outcomes'][0][0],
                                        'probe_sequence': [x[0] for x in exp['outcomes'][0][1]]},
                           'observed': {w: {'ident': v[0], 'probe_sequence': [x['id'] for x in v[1]]}
